@@ -109,6 +109,7 @@ class Segments:
         self.step_cap = step_cap
         self.n = 0
         self.decisions: dict[str, list[int]] = {}
+        self.raw: dict[str, list[tuple[int, int]]] = {}
         self.labels: dict[str, list[str]] = {}
         self.total_decisions = 0
         self.overlap = 0
@@ -134,6 +135,7 @@ class Segments:
     def finish(self, loop: SimLoop) -> None:
         sid = loop._sid  # type: ignore[attr-defined]
         self.decisions[sid] = [d[0] for d in loop.decisions]
+        self.raw[sid] = list(loop.decisions)
         self.labels[sid] = list(loop.labels)
         self.total_decisions += len(loop.decisions)
         self.overlap += loop.overlap_decisions
